@@ -4,7 +4,7 @@ from ..core import Stream, hx, unhx, run_oracle, WORK
 from .. import mml
 
 NEED_CLI = True
-RULE = ("determinism: every source (core programs, scripts, macros, Random-using programs with and without RandomSeed, malformed text, sample songs) is compiled "
+RULE = ("determinism: every source (core programs, scripts, macros, Random-using programs with and without RandomSeed, malformed text, programs whose log is full while PRINT arguments still draw random numbers, sample songs) is compiled "
         "by the three library entry points x debug 0/1 x message language en/ja in N fresh oracle processes (fresh hash seeds), and by one SakuraCompiler object "
         "after random earlier compilations; all MIDI bytes must be identical, logs identical per language (and identical across processes); cli: for programs "
         "without randomness the command-line binary (fresh process each time) writes the same file. non-trivial = distinct byte strings compared")
@@ -13,7 +13,10 @@ ASSUMPTIONS = ["the CLI reseeds the random generator from the clock by design: p
 TRUSTED = ["process-level isolation of the oracle workers (each run_oracle call starts new processes)"]
 
 SRC_FIXED = ["c d e", "v.Random(20) q.Random(10) c d e f g a b", "RandomSeed(5) t.Random(10) c d e f", "PRINT(Random(100)) PRINT(Random(100))", "INT A=1 PRINT(A) ZZZ ! c",
-             "TR(3) c TR(1) d", "FUNCTION F(A){RETURN(A*2)} PRINT(F(4))", "#A={c d} #A #A", "ドレミ", "KeyFlag+(fc) c d e f", "PRINT(RandomSelect(1,2,3,4,5))"]
+             "TR(3) c TR(1) d", "FUNCTION F(A){RETURN(A*2)} PRINT(F(4))", "#A={c d} #A #A", "ドレミ", "KeyFlag+(fc) c d e f", "PRINT(RandomSelect(1,2,3,4,5))",
+             # the log is full (100 entries) while PRINT arguments still draw random numbers: the music after it must not depend on debug/entry point
+             "RandomSeed(7) [120 Print(Random(100))] v.Random=40 l8 cdefgab>c", "[101 PRINT(Random(9))] v.Random(20) c d e f",
+             "FOR(INT I=0;I<105;I++){ PRINT(Random(5)); } v.Random=30 c d e", "[100 PRINT(Random(9))] t.Random(9) c d e f", "[99 PRINT(Random(9))] q.Random(9) c d e f"]
 
 def streams(tier, rng, P, only=None, cases=None):
     big = tier == "thorough"
@@ -25,6 +28,7 @@ def streams(tier, rng, P, only=None, cases=None):
             k = rng.random()
             if k < 0.5: srcs.append(mml.pr(mml.gen_program(rng, depth=2, maxlen=8)))
             elif k < 0.7: srcs.append(rng.choice(["v.Random(%d) " % rng.randint(1, 30), "t.Random(%d) " % rng.randint(1, 9), "o.Random(2) ", "RandomSeed(%d) q.Random(9) " % rng.randint(1, 999)]) + mml.pr(mml.gen_program(rng, depth=1, maxlen=6)))
+            elif k < 0.74: srcs.append("%s[%d PRINT(%s)] %s c d e f g" % (rng.choice(["", "RandomSeed(%d) " % rng.randint(1, 99)]), rng.choice([98, 100, 101, 130, 250]), rng.choice(["Random(50)", "Random(3)+1", "RandomSelect(1,2,3)"]), rng.choice(["v.Random(%d)" % rng.randint(5, 40), "t.Random(7)", "q.Random(30)", "o.Random(2)"])))
             elif k < 0.85: srcs.append(rng.choice(["INT A=%d; FOR(INT I=0;I<3;I++){ PRINT(A+I) c }", "STR S={c d} S S PRINT({x%d})", "INT N=%d IF(N>5){ c }ELSE{ d } PRINT(N)"]) % rng.randint(0, 9))
             else: srcs.append(mml.pr(mml.gen_program(rng, depth=1, maxlen=5)) + rng.choice([" !", " ZZZ", " (", " }", " あ"]))
         srcs += [s for s in mml.sample_sources()]
